@@ -48,6 +48,7 @@ fn mk_search(property: &str, label: &str, cfg: Cfg, prefix: Vec<Op>, alphabet: V
         vacuum_end: false,
         reopen_cfg: None,
         oom_tolerant: false,
+        vacuum_with_sessions: false,
     };
     f(&mut p);
     Search {
@@ -102,6 +103,26 @@ pub fn c03(tier: &str) -> i32 {
     a2.push(Op::Batch(vec![upd("t", 1, 16), unknown_table()]));
     searches.push(mk_search("C03", "update/delete on t(k,v) without index", Cfg::default(), prefix2, a2, if quick { 6 } else { 8 }, if quick { 100_000 } else { 2_000_000 }, |_| {}));
 
+    {
+        // rollback / failed commit of a session whose transaction VACUUM aborted under it; with reopen at the end
+        let prefix3 = vec![Op::Auto(Stmt::CreateTable(t_plain())), Op::Auto(ins("t", &[(1, 10)]))];
+        let a3 = vec![
+            Op::Begin(1),
+            Op::In(1, ins("t", &[(4, 40)])),
+            Op::In(1, ins("t", &[(5, 50)])),
+            Op::In(1, sel("t")),
+            Op::Commit(1),
+            Op::Rollback(1),
+            Op::DropSession(1),
+            Op::Auto(sel("t")),
+            Op::Vacuum,
+            Op::Reopen,
+        ];
+        searches.push(mk_search("C03", "a session whose transaction is aborted by VACUUM goes on and ends by commit (must fail), rollback or drop; reopen", Cfg::default(), prefix3, a3, if quick { 5 } else { 7 }, if quick { 50_000 } else { 2_000_000 }, |p| {
+            p.vacuum_with_sessions = true;
+            p.reopen_end = true;
+        }));
+    }
     run_searches(
         "C03",
         tier,
@@ -275,6 +296,29 @@ pub fn c13(tier: &str) -> i32 {
         ];
         searches.push(mk_search("C13", "t(k,v): committed/rolled-back insert, update, delete, create/drop t2, VACUUM anywhere, reopen", Cfg::default(), prefix, alpha, if quick { 5 } else { 7 }, if quick { 150_000 } else { 6_000_000 }, |p| {
             p.vacuum_end = true;
+        }));
+    }
+    {
+        // VACUUM while sessions are open: it aborts their transactions. Whatever such a session does afterwards,
+        // nobody else may ever see any of it - not after its COMMIT attempt (which must fail), not after ROLLBACK
+        // or drop, and not after a reopen (end-of-history oracle)
+        let prefix = vec![Op::Auto(Stmt::CreateTable(t_plain())), Op::Auto(ins("t", &[(1, 10), (2, 20)]))];
+        let alpha = vec![
+            Op::Auto(ins("t", &[(3, 30)])),
+            Op::Begin(1),
+            Op::In(1, ins("t", &[(4, 40)])),
+            Op::In(1, ins("t", &[(5, 50)])),
+            Op::In(1, sel("t")),
+            Op::Commit(1),
+            Op::Rollback(1),
+            Op::DropSession(1),
+            Op::Auto(sel("t")),
+            Op::Vacuum,
+            Op::Reopen,
+        ];
+        searches.push(mk_search("C13", "VACUUM while a session is open (its transaction is aborted; the session goes on and ends by commit, rollback or drop), reopen", Cfg::default(), prefix, alpha, if quick { 5 } else { 7 }, if quick { 100_000 } else { 3_000_000 }, |p| {
+            p.vacuum_with_sessions = true;
+            p.reopen_end = true;
         }));
     }
     {
@@ -461,6 +505,31 @@ pub fn c09(tier: &str) -> i32 {
         searches.push(mk_search("C09", &format!("unique table + second table with overflow rows, rollbacks, drop, flush, vacuum, reopen ({label})"), ccfg, prefix, alpha, if quick { 4 } else { 6 }, if quick { 150_000 } else { 6_000_000 }, |p| {
             p.reopen_end = true;
             p.reopen_cfg = Some(ocfg);
+        }));
+    }
+    {
+        // seed: the free list is not empty (a table with an overflow row was created and dropped), so the next
+        // CREATE TABLE / overflow chain takes recycled pages; the end-of-history oracle closes and reopens, and
+        // the deeper histories use the objects after a reopen in the middle
+        let prefix = vec![
+            Op::Auto(Stmt::CreateTable(t_unique())),
+            Op::Auto(ins("t", &[(1, 10)])),
+            Op::Auto(Stmt::CreateTable(t2_def())),
+            Op::Auto(ins_t2(2, &big)),
+            Op::Auto(Stmt::DropTable("t2".into())),
+        ];
+        let alpha = vec![
+            Op::Auto(Stmt::CreateTable(t2_def())),
+            Op::Auto(ins_t2(1, "x")),
+            Op::Auto(ins_t2(3, &big)),
+            Op::Auto(Stmt::DropTable("t2".into())),
+            Op::Auto(ins("t", &[(2, 20)])),
+            Op::Auto(Stmt::CreateUniqueIndex { name: "t2_a".into(), table: "t2".into(), cols: vec!["a".into()] }),
+            Op::Flush,
+            Op::Reopen,
+        ];
+        searches.push(mk_search("C09", "seed: non-empty free list (created + dropped table with an overflow row); re-create, use, reopen", Cfg::default(), prefix, alpha, if quick { 4 } else { 6 }, if quick { 50_000 } else { 2_000_000 }, |p| {
+            p.reopen_end = true;
         }));
     }
     run_searches(
